@@ -189,7 +189,7 @@ def run_linear(c, rec):
         require(isinstance(xm, cuqi.array.CUQIarray) and xm.geometry == BP.posterior.geometry, "MAP estimate does not carry the posterior geometry")
         check_maximiser(BP.posterior, xm_arr, probe, sd, "MAP", 1e-9 if route == "direct" else 1e-5)
     # ---------------- ML (well posed when A has full column rank)
-    if Aeff.shape[0] >= Aeff.shape[1] and np.linalg.cond(Aeff) < 1e3:
+    if Aeff.shape[0] >= Aeff.shape[1] and np.linalg.cond(Aeff) < 1e3 and np.min(np.linalg.svd(Aeff, compute_uv=False)) > 1e-6:
         xml_ref = np.linalg.solve(Aeff.T @ Sei @ Aeff, Aeff.T @ Sei @ b)
         refused, xl = refuses(lambda: BP.ML(disp=False))
         if refused:
